@@ -18,4 +18,36 @@ DecodeMatrix(be, k, n, missing) == LET f == FirstK(k, n, missing) IN [r \in 1..k
 SurvivorsInvertible(be, k, m, missing) ==
     /\ Cardinality((0..(k+m-1)) \ missing) >= k
     /\ Invertible(DecodeMatrix(be, k, k+m, missing), k, G8Mul, G8Inv)
+
+\* ---- transcription of isa_l_common.c: get_inverse_rows / isa_l_decode / isa_l_reconstruct ----
+G8Dot(row, col, n) == FoldLeft(LAMBDA a, j : a ^^ G8Mul(row[j], col[j]), 0, [j \in 1..n |-> j])
+\* rows for the missing fragments, in the order the code emits them: missing data ascending, then missing parity
+\* ascending; a parity row starts at zero, takes the encode coefficient of every available data element at the
+\* position that element has among the first k survivors, and for every missing data element adds coefficient x
+\* (the row already computed for that element)
+IsaInverseRows(be, k, m, missing) ==
+   LET n == k + m
+       inv == MatInverse(DecodeMatrix(be, k, n, missing), k, G8Mul, G8Inv)
+       md == SetToSortSeq(missing \cap (0..(k-1)), <)
+       mp == SetToSortSeq(missing \cap (k..(n-1)), <)
+       dataRows == [q \in 1..Len(md) |-> inv[md[q] + 1]]
+       parityRow(i) ==
+          LET enc == IsaGenRow(be, k, i)
+              step(acc, j) ==        \* acc = [row, avail, unavail]
+                 IF j \notin missing
+                 THEN [row |-> [acc.row EXCEPT ![acc.avail + 1] = @ ^^ enc[j + 1]], avail |-> acc.avail + 1, unavail |-> acc.unavail]
+                 ELSE [row |-> [c \in 1..k |-> acc.row[c] ^^ G8Mul(enc[j + 1], dataRows[acc.unavail + 1][c])],
+                       avail |-> acc.avail, unavail |-> acc.unavail + 1]
+          IN FoldLeft(step, [row |-> [c \in 1..k |-> 0], avail |-> 0, unavail |-> 0], [j \in 1..k |-> j - 1]).row
+   IN dataRows \o [q \in 1..Len(mp) |-> parityRow(mp[q])]
+IsaMissingOrder(k, m, missing) == SetToSortSeq(missing \cap (0..(k-1)), <) \o SetToSortSeq(missing \cap (k..(k+m-1)), <)
+\* applying a row to the first k survivors gives this combination of the data symbols
+IsaApplied(be, k, m, missing, row) ==
+   LET D == DecodeMatrix(be, k, k + m, missing)
+   IN [c \in 1..k |-> FoldLeft(LAMBDA a, j : a ^^ G8Mul(row[j], D[j][c]), 0, [j \in 1..k |-> j])]
+\* the adapter's decode is exact for this erasure set (every rebuilt fragment is its generator row)
+IsaDecodeExact(be, k, m, missing) ==
+   LET rows == IsaInverseRows(be, k, m, missing)
+       ord == IsaMissingOrder(k, m, missing)
+   IN \A q \in 1..Len(ord) : IsaApplied(be, k, m, missing, rows[q]) = IsaGenRow(be, k, ord[q])
 =============================================================================
